@@ -183,7 +183,11 @@ def main():
         }],
         "checks": checks,
         "notes": "All checks: ./check <id> quick|thorough [--replay file]. Verdicts are seed independent (VERIF_SEED only selects evidence samples). "
-                 "Known findings: /verif/known_findings.json.",
+                 "Known findings: /verif/known_findings.json. Besides the spaces named per check, every check drives the API through "
+                 "histories a fresh-object test never sees: kept objects asked again after setters / in-place changes of their inputs / "
+                 "other questions, results and argument buffers still held by the caller, repeated calls in one process (every shard "
+                 "runs in its own forked child; a history dependent violation is replayed as its whole shard), ids and labels in "
+                 "non-sorted first-appearance order, and mesh-sized arrays where the API is vectorised (DESIGN.md 6.2, 6.4-6.7).",
         "not_applicable": na,
     }
     with open(os.path.join(VERIF, "MANIFEST.json"), "w") as f:
